@@ -26,6 +26,11 @@ const VSTEP: usize = 0x0100_0000_0000;
 const MMIO_EXTENT: u64 = 1 << 34;
 const CAM_VBASE: usize = 0x1800_0000_0000;
 
+// the same generated PCI functions are also given to the x86-64 hypercall transport (scen/c11_hyp.rs): `run_hyp`
+thread_local! { static HYP: std::cell::Cell<bool> = const { std::cell::Cell::new(false) }; }
+fn hyp() -> bool { HYP.with(|h| h.get()) }
+fn scen(ctx: &mut Ctx, name: &str) { if hyp() { ctx.tr.scenario(&name.replace("c11-", "c11-hyp-")); } else { ctx.tr.scenario(name); } }
+
 /// configuration space reached through the real `MmioCam` over the custom MMIO backend: the CAM window decodes
 /// the offset back to (bus, device, function, register) and serves it from the twin
 struct CamWin { twin: Twin, cam: Cam }
@@ -117,9 +122,9 @@ fn answer_for(maps: &[BarMap], paddr: u64, size: usize) -> usize {
 
 // ---------------------------------------------------------------- the specification's selection, on raw bytes
 fn byte(regs: &RefFn, a: usize) -> u32 { if a >= 256 { 0 } else { (regs.read((a & !3) as u8) >> (8 * (a & 3))) & 0xff } }
-fn le32(regs: &RefFn, a: usize) -> u32 { byte(regs, a) | byte(regs, a + 1) << 8 | byte(regs, a + 2) << 16 | byte(regs, a + 3) << 24 }
+pub fn le32(regs: &RefFn, a: usize) -> u32 { byte(regs, a) | byte(regs, a + 1) << 8 | byte(regs, a + 2) << 16 | byte(regs, a + 3) << 24 }
 /// capability offsets in list order; None when the list is cyclic (never given to the real code)
-fn walk(f: &RefFn) -> Option<Vec<usize>> {
+pub fn walk(f: &RefFn) -> Option<Vec<usize>> {
     if f.status & 0x0010 == 0 { return Some(vec![]); }
     let mut cur = (f.read(0x34) & 0xfc) as usize;
     let mut out = vec![];
@@ -131,7 +136,7 @@ fn walk(f: &RefFn) -> Option<Vec<usize>> {
         cur = nx;
     }
 }
-fn spec_select(f: &RefFn, offs: &[usize], ty: u32) -> Option<usize> {
+pub fn spec_select(f: &RefFn, offs: &[usize], ty: u32) -> Option<usize> {
     offs.iter().copied().find(|o| byte(f, *o) == 9 && byte(f, o + 3) == ty && byte(f, o + 2) >= if ty == 2 { 20 } else { 16 }
         && o + byte(f, o + 2) as usize <= 256 && byte(f, o + 4) <= 5)
 }
@@ -143,12 +148,12 @@ pub enum Op {
     SetGuestPageSize(u32), RequiresLegacy, QueueSet(u16, u32, u64, u64, u64), QueueUnset(u16), QueueUsed(u16), AckInterrupt, Drop,
 }
 impl Op {
-    fn code(&self) -> u128 {
+    pub fn code(&self) -> u128 {
         match self { Op::DeviceType => 0, Op::ReadFeatures => 1, Op::WriteFeatures(_) => 2, Op::MaxQueueSize(_) => 3, Op::Notify(_) => 4,
             Op::GetStatus => 5, Op::SetStatus(_) => 6, Op::SetGuestPageSize(_) => 7, Op::RequiresLegacy => 8, Op::QueueSet(..) => 9,
             Op::QueueUnset(_) => 10, Op::QueueUsed(_) => 11, Op::AckInterrupt => 12, Op::Drop => 14 }
     }
-    fn args(&self) -> [u128; 5] {
+    pub fn args(&self) -> [u128; 5] {
         match *self {
             Op::WriteFeatures(f) => [f as u128, 0, 0, 0, 0],
             Op::MaxQueueSize(q) | Op::Notify(q) | Op::QueueUnset(q) | Op::QueueUsed(q) => [q as u128, 0, 0, 0, 0],
@@ -157,14 +162,14 @@ impl Op {
             _ => [0; 5],
         }
     }
-    fn name(&self) -> &'static str {
+    pub fn name(&self) -> &'static str {
         match self { Op::DeviceType => "device_type", Op::ReadFeatures => "read_device_features", Op::WriteFeatures(_) => "write_driver_features",
             Op::MaxQueueSize(_) => "max_queue_size", Op::Notify(_) => "notify", Op::GetStatus => "get_status", Op::SetStatus(_) => "set_status",
             Op::SetGuestPageSize(_) => "set_guest_page_size", Op::RequiresLegacy => "requires_legacy_layout", Op::QueueSet(..) => "queue_set",
             Op::QueueUnset(_) => "queue_unset", Op::QueueUsed(_) => "queue_used", Op::AckInterrupt => "ack_interrupt", Op::Drop => "drop" }
     }
 }
-fn apply<T: Transport>(t: &mut T, op: Op) -> u128 {
+pub fn apply<T: Transport>(t: &mut T, op: Op) -> u128 {
     match op {
         Op::DeviceType => t.device_type() as u8 as u128,
         Op::ReadFeatures => t.read_device_features() as u128,
@@ -184,7 +189,7 @@ fn apply<T: Transport>(t: &mut T, op: Op) -> u128 {
 }
 enum Tp { P(PciTransport), S(SomeTransport<'static>) }
 
-fn enc_err(e: &VirtioPciError) -> [u128; 4] {
+pub fn enc_err(e: &VirtioPciError) -> [u128; 4] {
     match e {
         VirtioPciError::InvalidDeviceId(id) => [1, 1, *id as u128, 0],
         VirtioPciError::InvalidVendorId(id) => [1, 2, *id as u128, 0],
@@ -199,7 +204,7 @@ fn enc_err(e: &VirtioPciError) -> [u128; 4] {
         VirtioPciError::Pci(PciError::InvalidBarType) => [1, 11, 100, 0],
     }
 }
-fn err_name(c: u128) -> &'static str {
+pub fn err_name(c: u128) -> &'static str {
     match c { 1 => "new_err_device_id", 2 => "new_err_vendor_id", 3 => "new_err_missing_common", 4 => "new_err_missing_notify", 5 => "new_err_multiplier",
         6 => "new_err_missing_isr", 7 => "new_err_io_bar", 8 => "new_err_bar_not_allocated", 9 => "new_err_out_of_range", 10 => "new_err_misaligned", _ => "new_err_pci" }
 }
@@ -326,42 +331,46 @@ const CAP_SLOTS: [u8; 8] = [0x40, 0x58, 0x70, 0x88, 0xa0, 0xb8, 0xd0, 0xe8];
 pub fn cap(at: u8, ty: u8, bar: u8, offset: u32, length: u32) -> Cap { Cap { at, id: 9, cap_len: if ty == 2 { 20 } else { 16 }, cfg_type: ty, bar, offset, length, mult: 4 } }
 
 /// a plain, valid device: BAR0 = 16 KiB of 32-bit memory at 0xfe000000 holding the four structures
-fn base_dev() -> (Vec<Spec>, Vec<Cap>) {
+pub fn base_dev() -> (Vec<Spec>, Vec<Cap>) {
     (vec![Spec::Mem { ty: 0, pf: false, k: 14, m: 32, addr: 0xfe00_0000 }],
      vec![cap(0x40, 1, 0, 0x0000, 0x38), cap(0x58, 3, 0, 0x1000, 1), cap(0x70, 4, 0, 0x2000, 0x100), cap(0x88, 2, 0, 0x3000, 0x100)])
 }
-fn mk(specs: &[Spec], caps: &[Cap]) -> Dev {
+pub fn mk(specs: &[Spec], caps: &[Cap]) -> Dev {
     let (bars, starts) = layout(specs);
     build_dev(0x1042_1af4, 0x0006, 0x0000, bars, &starts, &[0; 6], caps, 0, 0)
 }
 
+/// one operation with boundary arguments and the answers of the device; `nlen`, `mult`: the notification window
+pub fn gen_op(ctx: &mut Ctx, nlen: u64, mult: u64) -> (Op, Vec<u64>) {
+    let q = ctx.rng.boundary(16) as u16;
+    match ctx.rng.below(14) {
+        0 => (Op::DeviceType, vec![]),
+        1 => (Op::ReadFeatures, vec![ctx.rng.boundary(32), ctx.rng.boundary(32)]),
+        2 => (Op::WriteFeatures(ctx.rng.boundary(64)), vec![]),
+        3 => (Op::MaxQueueSize(q), vec![ctx.rng.boundary(16)]),
+        4 | 5 => {
+            // queue_notify_off around the end of the notification window
+            let edge = if mult > 0 { nlen.saturating_sub(2) / mult } else { 0 };
+            let off = match ctx.rng.below(5) { 0 => 0, 1 => edge, 2 => edge + 1, 3 => edge.saturating_sub(1), _ => ctx.rng.boundary(16) } & 0xffff;
+            (Op::Notify(q), vec![off])
+        }
+        6 => (Op::GetStatus, vec![ctx.rng.boundary(8)]),
+        7 => (Op::SetStatus(ctx.rng.boundary(32) as u32), vec![]),
+        8 => (if ctx.rng.chance(1, 2) { Op::SetGuestPageSize(ctx.rng.boundary(32) as u32) } else { Op::RequiresLegacy }, vec![]),
+        9 | 10 => (Op::QueueSet(q, ctx.rng.boundary(32) as u32, ctx.rng.boundary(64), ctx.rng.boundary(64), ctx.rng.boundary(64)), vec![]),
+        11 => (Op::QueueUnset(q), vec![]),
+        12 => (Op::QueueUsed(q), vec![*ctx.rng.pick(&[0u64, 1, 2, 0xffff, 0x101])]),
+        _ => (Op::AckInterrupt, vec![ctx.rng.boundary(8)]),
+    }
+}
 fn ops_session(ctx: &mut Ctx, rig: &mut Rig, n: u64) {
     let nlen = rig.wins[3] as u64; let mult = rig.wins[4] as u64;
     for _ in 0..n {
-        let q = ctx.rng.boundary(16) as u16;
-        let (op, ans): (Op, Vec<u64>) = match ctx.rng.below(14) {
-            0 => (Op::DeviceType, vec![]),
-            1 => (Op::ReadFeatures, vec![ctx.rng.boundary(32), ctx.rng.boundary(32)]),
-            2 => (Op::WriteFeatures(ctx.rng.boundary(64)), vec![]),
-            3 => (Op::MaxQueueSize(q), vec![ctx.rng.boundary(16)]),
-            4 | 5 => {
-                // queue_notify_off around the end of the notification window
-                let edge = if mult > 0 { nlen.saturating_sub(2) / mult } else { 0 };
-                let off = match ctx.rng.below(5) { 0 => 0, 1 => edge, 2 => edge + 1, 3 => edge.saturating_sub(1), _ => ctx.rng.boundary(16) } & 0xffff;
-                (Op::Notify(q), vec![off])
-            }
-            6 => (Op::GetStatus, vec![ctx.rng.boundary(8)]),
-            7 => (Op::SetStatus(ctx.rng.boundary(32) as u32), vec![]),
-            8 => (if ctx.rng.chance(1, 2) { Op::SetGuestPageSize(ctx.rng.boundary(32) as u32) } else { Op::RequiresLegacy }, vec![]),
-            9 | 10 => (Op::QueueSet(q, ctx.rng.boundary(32) as u32, ctx.rng.boundary(64), ctx.rng.boundary(64), ctx.rng.boundary(64)), vec![]),
-            11 => (Op::QueueUnset(q), vec![]),
-            12 => (Op::QueueUsed(q), vec![*ctx.rng.pick(&[0u64, 1, 2, 0xffff, 0x101])]),
-            _ => (Op::AckInterrupt, vec![ctx.rng.boundary(8)]),
-        };
+        let (op, ans) = gen_op(ctx, nlen, mult);
         rig.op(ctx, op, &ans);
     }
 }
-fn spin_answers(ctx: &mut Ctx) -> Vec<u64> {
+pub fn spin_answers(ctx: &mut Ctx) -> Vec<u64> {
     let k = ctx.rng.below(4);
     let mut v: Vec<u64> = (0..k).map(|_| *ctx.rng.pick(&[0x0fu64, 0x4f, 0x80, 0x01, 0xff, 0xcf])).collect();
     v.push(*ctx.rng.pick(&[0u64, 0, 0, 0x10, 0x30]));
@@ -371,11 +380,13 @@ fn spin_answers(ctx: &mut Ctx) -> Vec<u64> {
 /// `new` alone: the result must agree with the model, nothing is claimed of it (a structure that names the upper
 /// half of a 64-bit BAR as a BAR of its own)
 fn run_unclaimed(ctx: &mut Ctx, dev: &Dev) {
+    if hyp() { return super::c11_hyp::run_unclaimed(ctx, dev); }
     if let Some(mut rig) = new_case(ctx, dev, false, false) { *rig.answers.borrow_mut() = VecDeque::new(); drop(rig.t.take()); hal::take_log(); }
     ctx.tr.note("new_unclaimed");
 }
 /// new, a few operations, drop
 fn run_dev(ctx: &mut Ctx, dev: &Dev, nops: u64) {
+    if hyp() { return super::c11_hyp::run_dev(ctx, dev, nops); }
     let wrapped = ctx.rng.chance(1, 3);
     if let Some(mut rig) = new_case(ctx, dev, wrapped, true) {
         ops_session(ctx, &mut rig, nops);
@@ -385,8 +396,20 @@ fn run_dev(ctx: &mut Ctx, dev: &Dev, nops: u64) {
 }
 
 fn ids(ctx: &mut Ctx) {
-    ctx.tr.scenario("c11-device-ids");
+    scen(ctx, "c11-device-ids");
     // the complete id space through the public function, in one line per vendor id
+    if !hyp() { id_tables(ctx); }
+    // through `new`: vendor and device id tests come before anything else
+    let (specs, caps) = base_dev();
+    let (bars, starts) = layout(&specs);
+    for vd in [0x1042_1af4u32, 0x1000_1af4, 0x1001_1af4, 0x1002_1af4, 0x1003_1af4, 0x1004_1af4, 0x1005_1af4, 0x1006_1af4, 0x1009_1af4, 0x100a_1af4,
+               0x103f_1af4, 0x1040_1af4, 0x1041_1af4, 0x1045_1af4, 0x104d_1af4, 0x104e_1af4, 0x1050_1af4, 0x1059_1af4, 0x105a_1af4, 0xffff_1af4, 0x0000_1af4,
+               0x1042_1af5, 0x1042_1af3, 0x1042_0000, 0x1042_ffff, 0xffff_ffff, 0x1af4_1042] {
+        let dev = build_dev(vd, 0x0006, 0, bars, &starts, &[0; 6], &caps, 0, 0);
+        run_dev(ctx, &dev, 2);
+    }
+}
+fn id_tables(ctx: &mut Ctx) {
     for vendor in [0x1af4u16, 0x1af5, 0, 0xffff, 0x1000] {
         let (mut cnt, mut sum) = (0u128, 0u128);
         for id in 0..=0xffffu32 {
@@ -400,19 +423,10 @@ fn ids(ctx: &mut Ctx) {
         let outs = match virtio_device_type(&info) { Some(dt) => [1, dt as u8 as u128], None => [0, 0] };
         ctx.tr.line(1105, &[id as u128], &outs);
     }
-    // through `new`: vendor and device id tests come before anything else
-    let (specs, caps) = base_dev();
-    let (bars, starts) = layout(&specs);
-    for vd in [0x1042_1af4u32, 0x1000_1af4, 0x1001_1af4, 0x1002_1af4, 0x1003_1af4, 0x1004_1af4, 0x1005_1af4, 0x1006_1af4, 0x1009_1af4, 0x100a_1af4,
-               0x103f_1af4, 0x1040_1af4, 0x1041_1af4, 0x1045_1af4, 0x104d_1af4, 0x104e_1af4, 0x1050_1af4, 0x1059_1af4, 0x105a_1af4, 0xffff_1af4, 0x0000_1af4,
-               0x1042_1af5, 0x1042_1af3, 0x1042_0000, 0x1042_ffff, 0xffff_ffff, 0x1af4_1042] {
-        let dev = build_dev(vd, 0x0006, 0, bars, &starts, &[0; 6], &caps, 0, 0);
-        run_dev(ctx, &dev, 2);
-    }
 }
 
 fn findings(ctx: &mut Ctx) {
-    ctx.tr.scenario("c11-findings");
+    scen(ctx, "c11-findings");
     // F4: offset + length wraps in u32: 0xfffffff0 + 0x48 = 0x38 (mod 2^32) "fits" a 16 KiB BAR
     let (specs, mut caps) = base_dev();
     caps[0].offset = 0xffff_fff0; caps[0].length = 0x48;
@@ -462,7 +476,7 @@ fn window_pairs(size: u64, need: u64) -> Vec<(u32, u32)> {
 }
 
 fn windows(ctx: &mut Ctx) {
-    ctx.tr.scenario("c11-windows");
+    scen(ctx, "c11-windows");
     let needs = [56u64, 1, 4, 2];   // caps[] order of base_dev: common, isr, device, notify
     let bars: Vec<Spec> = vec![
         Spec::Mem { ty: 0, pf: false, k: 14, m: 32, addr: 0xfe00_0000 }, Spec::Mem { ty: 0, pf: true, k: 6, m: 32, addr: 0xffff_ffc0 }, Spec::Mem { ty: 1, pf: false, k: 12, m: 32, addr: 0x000f_f000 },
@@ -493,7 +507,7 @@ fn windows(ctx: &mut Ctx) {
 }
 
 fn bar_kinds(ctx: &mut Ctx) {
-    ctx.tr.scenario("c11-bar-kinds");
+    scen(ctx, "c11-bar-kinds");
     let roomy = Spec::Mem { ty: 0, pf: false, k: 16, m: 32, addr: 0xfd00_0000 };
     let odd: Vec<Spec> = vec![Spec::Unimpl, Spec::Io { k: 8, m: 32, addr: 0xc000 }, Spec::Io { k: 2, m: 32, addr: 0 }, Spec::Mem { ty: 0, pf: false, k: 14, m: 32, addr: 0 }, Spec::Mem64 { pf: false, k: 14, m: 64, addr: 0 },
         Spec::Mem { ty: 1, pf: true, k: 14, m: 32, addr: 0x000f_c000 }, Spec::Mem64 { pf: true, k: 40, m: 64, addr: 0x0000_ff00_0000_0000 }];
@@ -535,7 +549,7 @@ fn bar_kinds(ctx: &mut Ctx) {
 }
 
 fn cap_lists(ctx: &mut Ctx) {
-    ctx.tr.scenario("c11-capabilities");
+    scen(ctx, "c11-capabilities");
     // each mandatory structure missing, too short, foreign id, reserved type; duplicates: the first usable wins
     for which in 0..4usize {
         let (specs, caps) = base_dev();
@@ -583,7 +597,7 @@ fn narrow(ctx: &mut Ctx, k: u32, bits: u32) -> u32 {
     if ctx.rng.chance(2, 3) { bits } else { ctx.tr.note("random_narrow_decoder"); ctx.rng.range(k as u64 + 1, bits as u64) as u32 }
 }
 fn random_devs(ctx: &mut Ctx) {
-    ctx.tr.scenario("c11-random");
+    scen(ctx, "c11-random");
     let n = ctx.budget(3000, 10);
     for _ in 0..n {
         // BARs: two to four, mostly memory
@@ -682,4 +696,17 @@ pub fn run(ctx: &mut Ctx) {
     cap_lists(ctx);
     directed_ops(ctx);
     random_devs(ctx);
+}
+
+/// the same PCI functions through `HypPciTransport` (x86-64 pKVM hypercall transport), then its own directed scenarios
+pub fn run_hyp(ctx: &mut Ctx) {
+    HYP.with(|h| h.set(true));
+    findings(ctx);
+    ids(ctx);
+    windows(ctx);
+    bar_kinds(ctx);
+    cap_lists(ctx);
+    random_devs(ctx);
+    HYP.with(|h| h.set(false));
+    super::c11_hyp::run_own(ctx);
 }
